@@ -43,8 +43,8 @@ def nontrivial(trace):
     return False
 
 
-def run_one(ctx, W, out, chooser, terms, tag):
-    trace, errors, complete, drv = SC.explore(W, out, chooser)
+def run_one(ctx, W, out, chooser, terms, tag, slow_pm=False):
+    trace, errors, complete, drv = SC.explore(W, out, chooser, slow_pm=slow_pm)
     evs = [t[0] for t in trace]
     ctx.case([W, sorted(out.items()), evs], nontrivial(trace))
     ctx.count('%s_schedules' % tag)
@@ -54,6 +54,14 @@ def run_one(ctx, W, out, chooser, terms, tag):
     case = {'W': W, 'outcome': {str(k): v for k, v in out.items()}, 'schedule': evs}
     if errors:
         ctx.disagree(case, errors[0][-1500:], None, 'C01 driver: Controller.run raised an unexpected exception')
+    first_final = {}
+    for (ev, pre, post) in trace:
+        for c in range(len(W)):
+            st = post['comps'][c][0]
+            if st in ('finished', 'failed', 'component_shutdown'):
+                if c in first_final and first_final[c] != st:
+                    ctx.fail(dict(case, component=c, at=ev), 'a recorded final state changed (%s -> %s)' % (first_final[c], st), [])
+                first_final.setdefault(c, st)
     for (c, p, what, ev) in SC.launch_violations(W, trace):
         cls = []
         ctx.fail(dict(case, component=c, producer=p, at=ev), what, cls)
@@ -111,6 +119,11 @@ def run(ctx):
     terms = []
     W, out, sched = F1_witness()
     run_one(ctx, W, out, scripted(sched), terms, 'corpus')
+    # F2b (fixed): Y's post-mortem is inside its 25 s stability wait while the failure of X shuts Y down
+    W2 = [SC.comp(), SC.comp()]
+    out2 = {0: ['UnknownIssue'], 1: ['KnownIssue']}
+    sched2 = [('Start',), ('Exit', 0), ('Exit', 1), ('PM', 0), ('PMB', 1), ('Fin', 0), ('Fin', 1), ('PME', 1), ('Tick',)]
+    run_one(ctx, W2, out2, scripted(sched2), terms, 'corpus', slow_pm=True)
     nex = exhaustive_small(ctx, terms, 4 if ctx.tier == 'quick' else 7)
     ctx.count('exhaustive_runs', nex)
     nrand = 200 if ctx.tier == 'quick' else 5000
@@ -128,7 +141,7 @@ def run(ctx):
                 if ticks and others:
                     return r2.choice(ticks) if r2.random() < bias else r2.choice(others)
                 return r2.randrange(len(en))
-            run_one(ctx, W, out, ch, terms, 'random')
+            run_one(ctx, W, out, ch, terms, 'random', slow_pm=(j == 1))
     bad = ctx.model_mismatches(SC.HEADER, [t[0] for t in terms], 'check_case', chunk=120)
     for k, i in enumerate(bad):
         where = ctx.model_eval(SC.HEADER, 'let \'(W, fx, tbl, tr) := %s in check_trace W fx (outcome_of tbl) state0 tr 0' % terms[i][0]) if k < 3 else ''
